@@ -533,7 +533,7 @@ def _rp_poles(ra):
 
 
 def bounded(run):
-    cnt = 160 if run.tier == "quick" else 2000
+    cnt = 160 if run.tier == "quick" else 2000 * run.tmul
     jobs = [dict(seed=run.seed * 23 + k, count=cnt // 8) for k in range(8)]
     res, errs = native.pmap("contracts.C20", "nat_sweep", jobs)
     run.worker_errors(errs, len(jobs))
